@@ -3409,7 +3409,7 @@ func (a *Agent) TaskDispatch(RequestID uint32, CommandID uint32, Parser *parser.
 
 			switch Type {
 
-			case CALLBACK_OUTPUT:
+			case CALLBACK_OUTPUT, CALLBACK_OUTPUT_UTF8:
 				if Parser.CanIRead([]parser.ReadType{parser.ReadBytes}) {
 					logger.Debug(fmt.Sprintf("Agent: %x, Command: BEACON_OUTPUT - CALLBACK_OUTPUT", AgentID))
 
